@@ -1,7 +1,7 @@
 #!/bin/bash
-# usage: confirm_seed.sh <PROP> <k> : confirm a seeded change from /tmp/seed/<PROP>/out in a scratch worktree of /repo HEAD:
+# usage: confirm_seed.sh <PROP> <k> [srcroot=/tmp/seed] [offset=0] : confirm seeded change k from <srcroot>/<PROP>/out (stored as <PROP>-<k+offset>) in a scratch worktree of /repo HEAD:
 # demo passes without, fails with the patch; the pinned suite keeps every baseline-stable test passing. Stores /verif/seeded/<PROP>-<k>/.
-P=$1; K=$2; SRC=/tmp/seed/$P/out; W=/tmp/confirm_${P}_$K; OUT=/verif/seeded/$P-$K
+P=$1; K=$2; ROOT=${3:-/tmp/seed}; OFF=${4:-0}; N=$((K+OFF)); SRC=$ROOT/$P/out; W=/tmp/confirm_${P}_$N; OUT=/verif/seeded/$P-$N
 [ -f $SRC/patch$K.diff ] || { echo "no patch"; exit 2; }
 rm -rf $W; git -C /repo worktree add -q --detach $W HEAD || exit 2
 cp /repo/gemclus/tree/_utils.cpython-312-x86_64-linux-gnu.so $W/gemclus/tree/
@@ -15,7 +15,7 @@ PYTHONPATH=$W /venv/bin/python -m pytest -q -p no:cacheprovider --timeout=900 --
 tail -3 $OUT/suite.log > $OUT/suite_tail.txt; rm -f $OUT/suite.log
 HEAD=$(git -C /repo rev-parse --short HEAD)
 cat > $OUT/confirm.json <<EOT
-{"property": "$P", "seed": $K, "repo_head": "$HEAD", "patch_applies": $([ $RA = 0 ] && echo true || echo false),
+{"property": "$P", "seed": $N, "repo_head": "$HEAD", "patch_applies": $([ $RA = 0 ] && echo true || echo false),
  "demo_exit_clean": $RC0, "demo_exit_patched": $RC1, "baseline_stable_still_pass": $([ $RS = 0 ] && echo true || echo false)}
 EOT
 cd /; git -C /repo worktree remove --force $W
